@@ -17,6 +17,9 @@ def items(tier):
     for p in (PATS if tier != "quick" else PATS[:5]):
         out.append(mk("C20", p, "repeat-growth", 2 if tier == "quick" else 3, "set:ab1.@x \n"))
         out.append(mk("C20", p, "bt-visited", 3, "set:ab1.@x \n", n=2))
+    # resumed search on a haystack longer than the backtracker's MaxInputSize (323 bytes for this NFA) whose tail still fits
+    out.append(mk("C20", r"[a-c]{400}x", "bt-visited-at", 2, "hex:" + b"abx".hex(), n=300, pre="a" * 330))
+    out.append(mk("C20", r"[a-c]{400}x", "bt-visited-at", 2, "hex:" + b"abx".hex(), n=0, pre="a" * 300))
     for p in DFA:
         for x in (CAPS if tier != "quick" else CAPS[:3]):
             out.append(mk("C20", p, "dfa-capacity", 2 if tier == "quick" else 3, "set:abx1@ \n", n=1 if tier == "quick" else 2, extra=x))
